@@ -10,7 +10,7 @@ use crate::common::*;
 use lrpar::RecoveryKind;
 use rayon::prelude::*;
 use serde_json::json;
-use vcore::gram::{RefGrammar, all_inputs, family_empty, family_chains, family_empty2, family_expr, family_lalr, family_lalr2, family_seeds, family_ternary, neighbourhood};
+use vcore::gram::{RefGrammar, all_inputs, family_wide, input_alphabet, inputs_over, family_empty, family_chains, family_empty2, family_expr, family_lalr, family_lalr2, family_seeds, family_ternary, neighbourhood};
 use vcore::real::{Built, Drv, HInput, build, parse};
 use vcore::refs::{Earley, Lr1, analyse};
 use vcore::report::Ctx;
@@ -65,6 +65,8 @@ fn check_grammar(ctx: &Ctx, mode: Mode, g: &RefGrammar, n: usize, only_input: Op
     st.grammars = 1;
     let b: Built<u32> = match build(g) {
         Ok(b) => b,
+        Err(vcore::real::BuildErr::Grammar(m)) => machinery(&format!("the harness rendered a grammar the front end rejects: {}: {}", g.short(), m)),
+        Err(vcore::real::BuildErr::Names(m)) => machinery(&format!("harness cannot map names for {}: {}", g.short(), m)),
         Err(_) => {
             st.build_failed = 1;
             return st;
@@ -124,7 +126,7 @@ fn check_grammar(ctx: &Ctx, mode: Mode, g: &RefGrammar, n: usize, only_input: Op
     let drv = Drv::new(&b, n);
     let inputs: Vec<Vec<usize>> = match only_input {
         Some(w) => vec![w.clone()],
-        None => all_inputs(g.ntoks, n),
+        None => inputs_over(&input_alphabet(g), n),
     };
     for w in &inputs {
         let real_toks: Vec<_> = w.iter().map(|t| b.tmap[*t]).collect();
@@ -269,6 +271,9 @@ fn grammar_space(ctx: &Ctx, mode: Mode) -> (Vec<RefGrammar>, Vec<(String, usize)
         ("F-empty", family_empty().into_iter().chain(family_empty2()).collect()),
         ("F-expr", family_expr()),
         ("F-seeds", family_seeds()),
+        // (without the members that carry precedence declarations of their own: %nonassoc makes the
+        // parser's language smaller than the grammar's, which is C03's subject)
+        ("F-wide (tokens from index 62-120, rules from index 1-65)", family_wide().into_iter().filter(|g| g.precs.is_empty() && g.prod_prec.is_empty()).collect()),
     ];
     for (n, f) in fams {
         sizes.push((n.to_string(), f.len()));
@@ -331,7 +336,8 @@ pub fn run(ctx: Ctx, mode: Mode) -> i32 {
         .par_iter()
         .map(|g| {
             // alphabets of > 3 tokens get shorter inputs (families), to keep |T|^n bounded
-            let n = if g.ntoks <= 2 { n_small + 1 } else if g.ntoks == 3 { n_small } else if g.ntoks <= 5 { 4 } else { 3 };
+            let na = input_alphabet(g).len();
+            let n = if na <= 2 { n_small + 1 } else if na == 3 { n_small } else if na <= 5 { 4 } else { 3 };
             check_grammar(&ctx, mode, g, n, None)
         })
         .reduce(Stats::default, |a, b| a.merge(b));
